@@ -302,6 +302,18 @@ namespace xv
     XV_OP2(c_le_fn, xs::le(a, b))
     XV_OP2(c_gt_fn, xs::gt(a, b))
     XV_OP2(c_ge_fn, xs::ge(a, b))
+    XV_SCALAR_CMP(c_eq_rs, x == s, false)
+    XV_SCALAR_CMP(c_eq_ls, s == x, true)
+    XV_SCALAR_CMP(c_ne_rs, x != s, false)
+    XV_SCALAR_CMP(c_ne_ls, s != x, true)
+    XV_SCALAR_CMP(c_lt_rs, x < s, false)
+    XV_SCALAR_CMP(c_lt_ls, s < x, true)
+    XV_SCALAR_CMP(c_le_rs, x <= s, false)
+    XV_SCALAR_CMP(c_le_ls, s <= x, true)
+    XV_SCALAR_CMP(c_gt_rs, x > s, false)
+    XV_SCALAR_CMP(c_gt_ls, s > x, true)
+    XV_SCALAR_CMP(c_ge_rs, x >= s, false)
+    XV_SCALAR_CMP(c_ge_ls, s >= x, true)
     XV_OP3(c_select, xs::select(a, b, c))
 
     // select with a compile-time mask: 136 masks per lane count (one-hot and all-but-one for every lane position
@@ -350,6 +362,18 @@ namespace xv
         reg_cmpq<c_le, Q_store, T>("le");
         reg_cmpq<c_gt, Q_store, T>("gt");
         reg_cmpq<c_ge, Q_store, T>("ge");
+        reg_cmpq<c_eq_rs, Q_store, T>("eq.rs");
+        reg_cmpq<c_eq_ls, Q_store, T>("eq.ls");
+        reg_cmpq<c_ne_rs, Q_store, T>("ne.rs");
+        reg_cmpq<c_ne_ls, Q_store, T>("ne.ls");
+        reg_cmpq<c_lt_rs, Q_store, T>("lt.rs");
+        reg_cmpq<c_lt_ls, Q_store, T>("lt.ls");
+        reg_cmpq<c_le_rs, Q_store, T>("le.rs");
+        reg_cmpq<c_le_ls, Q_store, T>("le.ls");
+        reg_cmpq<c_gt_rs, Q_store, T>("gt.rs");
+        reg_cmpq<c_gt_ls, Q_store, T>("gt.ls");
+        reg_cmpq<c_ge_rs, Q_store, T>("ge.rs");
+        reg_cmpq<c_ge_ls, Q_store, T>("ge.ls");
         reg_cmpq<c_eq_fn, Q_mask, T>("eq.fn");
         reg_cmpq<c_ne_fn, Q_mask, T>("ne.fn");
         reg_cmpq<c_lt_fn, Q_mask, T>("lt.fn");
